@@ -300,6 +300,8 @@ def build(S):
         for per in (False, True):
             S.contract("calcZShift[two-region chain,periodic=%s]" % per, FN_ZS, chainkit.run_zshift(per), shape="two regions, nx=1, ny=1", assume_safety="R>0 and Bp!=0 at the fine-contour nodes (geometry preconditions)")
         S.contract("calcZShift[open chain, guard points and a fine contour extended below the start]", FN_ZS, chainkit.run_zshift(False, start1=2, fine_offset=3), shape="two regions, nx=1; contour start index 2, fine-contour start index 5", assume_safety="R>0 and Bp!=0 at the fine-contour nodes (geometry preconditions)")
+        S.contract("calcZShift[two-region open chain, called twice]", FN_ZS, chainkit.run_zshift(False, repeat=2), shape="two regions, nx=1, ny=1; second call on the same regions", assume_safety="R>0 and Bp!=0 at the fine-contour nodes (geometry preconditions)")
+        S.contract("calcZShift[one region, its own y-neighbour, called twice]", FN_ZS, chainkit.run_zshift(True, single=True, repeat=2), shape="one periodic region, nx=1, ny=1; second call on the same region", assume_safety="R>0 and Bp!=0 at the fine-contour nodes (geometry preconditions)")
         S.contract("calcZShift[one region, its own y-neighbour]", FN_ZS, chainkit.run_zshift(True, single=True), shape="one periodic region (single-null core), nx=1, ny=1", assume_safety="R>0 and Bp!=0 at the fine-contour nodes (geometry preconditions)")
         S.contract("dx defined at all four locations", "hypnotoad.core.mesh:MeshRegion.geometry1", run_dx_defined, expected_exceptions=(ValueError,), raises_ok=g1_raises_ok, shape="nx=1, ny=3")
 
